@@ -56,8 +56,10 @@ impl Formatter {
             first = false;
         }
 
-        // Ensure file ends with newline
-        self.writer.newline();
+        // Every declaration ends its own line, so only an empty program still needs its final newline.
+        if first {
+            self.writer.newline();
+        }
     }
 
     // ========================================================================
@@ -1083,9 +1085,10 @@ impl Formatter {
             self.writer.write(" if ");
             self.format_expr(&guard.node);
         }
-        self.writer.write(" => ");
+        self.writer.write(" =>");
         match &arm.body {
             MatchBody::Expr(expr) => {
+                self.writer.write(" ");
                 self.format_expr(&expr.node);
                 self.writer.newline();
             }
